@@ -27,7 +27,7 @@ Definition def_rember : def := mkDef [1; 2; 3] true
 Definition def_permute : def := mkDef [1; 2] true
   (GMatch MMatch (list_term [(TVar 1 false); (TVar 2 false)]) [([(list_term [TEmpty; TEmpty])], []); ([(list_term [(improper_term [(TVar 3 false)] (TVar 4 false)); (TVar 0 true)])], [(GFresh [5] [(GCall 5 [(TVar 4 false); (TVar 5 false)]); (GCall 4 [(TVar 3 false); (TVar 2 false); (TVar 5 false)])])])]).
 Definition def_distinct : def := mkDef [1] true
-  (GMatch MMatch (TVar 1 false) [([TEmpty; (list_term [(TVar 0 true)])], []); ([(improper_term [(TVar 2 false); (TVar 3 false)] (TVar 4 false))], [(GDiseq (TVar 2 false) (TVar 3 false)); (GCall 6 [(improper_term [(TVar 2 false)] (TVar 4 false))]); (GCall 6 [(TVar 4 false)])])]).
+  (GMatch MMatch (TVar 1 false) [([TEmpty; (list_term [(TVar 0 true)])], []); ([(improper_term [(TVar 2 false); (TVar 3 false)] (TVar 4 false))], [(GDiseq (TVar 2 false) (TVar 3 false)); (GCall 6 [(improper_term [(TVar 2 false)] (TVar 4 false))]); (GCall 6 [(improper_term [(TVar 3 false)] (TVar 4 false))])])]).
 Definition def_cons : def := mkDef [1; 2; 3] false
   (GEq (improper_term [(TVar 1 false)] (TVar 2 false)) (TVar 3 false)).
 Definition def_first : def := mkDef [1; 2] false
